@@ -171,17 +171,36 @@ def run_c12(ck, ctx):
                                  'expected': 'err' if exp == 'err' else f'{len(exp)} words'})
     ck.sample(dict(request=reqs[10][:120], impl=impl[10][:120], model=model[10][:120]))
     report_dis(ck, 'cutter', dis, bad_idx)
-    # CLI level: padding error is reported once at the RDH offset and the next packet is judged from the initial state
-    words = [G.ihw(7), G.tdh(trig=3, orbit=5)]
-    p1 = G.Pkt(dict(orbit=5, page=0), words, raw_payload=b''.join(words) + b'\xff' * 16)
-    p2 = G.Pkt(dict(orbit=5, page=1), [G.ihw(7), G.tdh(trig=3, orbit=5, nodata=1)])
-    data = G.encode([p1, p2])
-    r = L.run_cli(['check', 'sanity', 'its'], data)
-    ck.case(('cli_overpad',))
-    errs = r.errors
-    if [e for e in errs if e[1] == 'PAYLOAD'] != [(0, 'PAYLOAD', None)] or any(e[0] >= p1.size() for e in errs):
-        ck.violation('cli_overpad', {'what': 'over-padded payload: expected exactly one payload error at the RDH offset and no error in the next packet',
-                                     'input_hex': data.hex(), 'errors': errs, 'args': 'check sanity its'})
+    # CLI level: padding error is reported once at the RDH offset and the next packet is judged from the initial
+    # state — whatever state the link's word state machine was in before (data phase, open packet, after TDH)
+    pre_variants = {
+        'after_tdh': [G.ihw(7), G.tdh(trig=3, orbit=5)],
+        'in_data': [G.ihw(7), G.tdh(trig=3, orbit=5), G.dw(0x20, b'\x01' * 9), G.dw(0x21, b'\x02' * 9)],
+        'open_packet': [G.ihw(7), G.tdh(trig=3, orbit=5), G.dw(0x20, b'\x01' * 9), G.tdt(done=0)],
+        'none': None,
+    }
+    for vname, pre in pre_variants.items():
+        for mode in (['check', 'sanity', 'its'], ['check', 'all', 'its']):
+            pk = []
+            page = 0
+            if pre is not None:
+                pk.append(G.Pkt(dict(orbit=5, page=page, trig=0x6a03), pre)); page += 1
+            junk = [G.dw(0x20, b'\x07' * 9)] + [G.ihw(7), G.tdh(trig=3, orbit=5)]
+            pk.append(G.Pkt(dict(orbit=5, page=page, trig=0x6a03), junk, raw_payload=b''.join(junk) + b'\xff' * R.choice([16, 22, 31])))
+            bad_off = sum(p.size() for p in pk[:-1]); page += 1
+            pk.append(G.Pkt(dict(orbit=5, page=page, trig=0x6a03), [G.ihw(7), G.tdh(trig=3, orbit=5), G.dw(0x20, b'\x03' * 9), G.tdt(done=1)])); page += 1
+            pk.append(G.Pkt(dict(orbit=5, page=page, stop=1, trig=0x6a03), [G.ddw0()]))
+            data = G.encode(pk)
+            after = bad_off + pk[-3].size()
+            r = L.run_cli(mode, data)
+            ck.case(('cli_overpad', vname, tuple(mode)))
+            errs = r.errors
+            pay = [e for e in errs if e[1] == 'PAYLOAD']
+            late = [e for e in errs if e[0] is not None and e[0] >= after and e[1] not in ('E10', 'E11')]
+            if pay != [(bad_off, 'PAYLOAD', None)] or late:
+                ck.violation('cli_overpad', {'what': 'over-padded payload: expected exactly one payload error at its RDH offset and the following packets judged from the initial state (no word-level error in them)',
+                                             'state_before': vname, 'input_hex': data.hex(), 'errors': errs, 'args': ' '.join(mode),
+                                             'payload_errors': pay, 'errors_in_following_packets': late})
     # view level: number of word rows equals the number of words
     pk, _ = G.conforming_stream(R, nlinks=2, df=None)
     data = G.encode(pk)
@@ -314,6 +333,30 @@ def run_c09(ck, ctx):
     if not want <= got:
         ck.violation('cli_illegal', {'what': 'illegal words are not reported at their offsets', 'want': sorted(want), 'got': sorted(got),
                                      'input_hex': data.hex(), 'args': 'check all its'})
+    # … also when the very same illegal word comes back in the same slot of consecutive HBFs (a stuck bit):
+    # single-successor states rely on the sanity code of the expected word type at *every* occurrence
+    for slot, mk in (('ihw', lambda: bytes([0xC0, 0x01]) + bytes(7) + b'\xE1'),
+                     ('tdh', lambda: G.tdh(trig=3, orbit=0, nodata=1)[:9] + b'\xE9')):
+        bad = mk()
+        pk, want = [], set()
+        for hbf in range(R.randint(3, 5)):
+            orbit = 20 + hbf
+            if slot == 'ihw':
+                words = [bad, G.tdh(trig=3, orbit=orbit, nodata=1)]; k = 0; code = 'E30'
+            else:
+                w = bytearray(bad); w[4:8] = orbit.to_bytes(4, 'little'); words = [G.ihw(7), bytes(w) if False else bad]; k = 1; code = 'E40'
+            off = sum(p.size() for p in pk)
+            pk.append(G.Pkt(dict(orbit=orbit, page=0), words))
+            pk.append(G.Pkt(dict(orbit=orbit, page=1, stop=1), [G.ddw0()]))
+            want.add((off + 64 + 10 * k, code))
+        data = G.encode(pk)
+        for mode in (['check', 'sanity', 'its'], ['check', 'all', 'its']):
+            r = L.run_cli(mode, data)
+            ck.case(('cli_repeat_illegal', slot, tuple(mode)))
+            got = {(e[0], e[1]) for e in r.errors}
+            if not want <= got:
+                ck.violation('cli_illegal', {'what': 'the same illegal word repeated in the same slot is not reported at every occurrence', 'slot': slot,
+                                             'want': sorted(want), 'got': sorted(got), 'input_hex': data.hex(), 'args': ' '.join(mode)})
 
 
 # =============================================================== C10
